@@ -1,6 +1,8 @@
 package hx
 
 import (
+	"github.com/hneemann/parser2/funcGen"
+	"time"
 	"strconv"
 	"strings"
 
@@ -46,6 +48,13 @@ var c12Pipelines = []string{
 	`numbers(a+3).merge(numbers(3),(p,q)->p.k<q).size()`,
 	`numbers(a+3).merge(numbers(3),(p,q)->7).size()`,
 	`numbers(n).accept(x->x>a).indexWhere(x->x>a+2)`,
+	// early stopping consumers and failing elements behind a stage that has switched to parallel workers
+	`numbers(40).map(x->slow(x)).top(20+a).size()`,
+	`numbers(40).map(x->slow(x)).indexWhere(x->x=20+a)`,
+	`numbers(40).accept(x->slow(x)>=0).present(x->x=25+a)`,
+	`try numbers(40).map(x->if x=20+a then throw("e") else slow(x)).size() catch 0`,
+	`numbers(40).map(x->slow(x)).map(x->slow(x)+a).top(30).size()`,
+	`numbers(40).map(x->slow(x)).multiUse({f:l->l.top(15).size(),s:l->l.first()}).f`,
 }
 
 func c12Jobs(tier string, seed int64) []string {
@@ -90,6 +99,12 @@ func c12Run(job string) {
 	kind, rest := split2(job)
 	if kind == "eval" {
 		fg := value.New()
+		// slow(x): 400us of virtual time, forces the switch of map/accept to parallel workers
+		fg.AddStaticFunction("slow", funcGen.Function[value.Value]{
+			Func: func(st funcGen.Stack[value.Value], cs []value.Value) (value.Value, error) {
+				time.Sleep(400 * time.Microsecond)
+				return st.Get(0), nil
+			}, Args: 1, IsPure: false})
 		f := mustGen(fg, rest, "a", "n")
 		a := sym.Int64("a")
 		sym.Assume(sym.And(a >= 0, a < 6))
